@@ -25,7 +25,8 @@ from .. import projects as P
 def c07_projects(quick: bool, rng: random.Random) -> List[Dict[str, Any]]:
     ps = list(families.t3_reexport()) + [p for p in families.t5_duplicates() if "move" in p["meta"].get("shape", "")] \
         + list(families.t7_moved_class_with_moved_base()) + list(families.t8_prefix_roots()) \
-        + list(families.t9_reexport_while_origin_processing())
+        + list(families.t9_reexport_while_origin_processing()) + list(families.t11_cycle_rename_and_consumer_first()) \
+        + list(families.t14_two_roots_facade()) + list(families.t10_double_reexport())
     if not quick:
         extra = [families.random_project(rng, rng.randint(3, 5)) for _ in range(300)]
         ps += [p for p in extra if P.expected_reexports(p)][:120]
@@ -99,6 +100,25 @@ def judge(ctx: Ctx, res: Dict[str, Any], oracle: Dict[str, Any]) -> List[str]:
                 if got is not obj:
                     failed.append("XrefByOldAndNewName")
                     detail["XrefByOldAndNewName"] = {"from": mk, "name": nm, "got": repr(got)}
+    # the object is an entry of its re-exporter (listed on its page)
+    for x in exp:
+        obj = system.allobjects.get(x["new"])
+        if obj is not None and (obj.parent is None or obj.parent.contents.get(obj.name) is not obj):
+            failed.append("ListedInReExporter")
+            detail["ListedInReExporter"] = {"object": x["new"], "parent": repr(obj.parent)}
+    # consumers, read off the source (works for projects CPython cannot import, e.g. import cycles)
+    for skey, sites in P.static_base_sites(proj).items():
+        keys = by_site.get(skey, [])
+        if len(keys) != 1:
+            continue
+        e = dump[keys[0]]
+        for i, bs in enumerate(sites):
+            if bs is not None and json.dumps(bs) in moved_keys:
+                got = e.get("base_sites", [])[i] if i < len(e.get("base_sites", [])) else None
+                gotname = e["bases"][i] if i < len(e["bases"]) else None
+                if got != bs or gotname != moved_keys[json.dumps(bs)]:
+                    failed.append("ConsumersResolve")
+                    detail["ConsumersResolve(static)"] = {"class": keys[0], "rawbases": e.get("rawbases"), "expected": moved_keys[json.dumps(bs)], "got": gotname}
     # consumers: what CPython says each base / local name denotes
     if "failed" not in oracle and not oracle.get("errors"):
         for skey, info in oracle["classes"].items():
@@ -130,7 +150,8 @@ def judge(ctx: Ctx, res: Dict[str, Any], oracle: Dict[str, Any]) -> List[str]:
                         failed.append("ConsumersResolve")
                         detail["ConsumersResolve(name)"] = {"module": nskey[2:], "name": name, "got": repr(r1)}
                     html = flatten(m.docstring_linker.link_to(name, "lbl"))
-                    if f'href="{obj.url}"' not in html:
+                    samepage = obj.page_object is m and f'href="#{obj.url.split("#")[-1]}"' in html   # shortened link on its own page
+                    if f'href="{obj.url}"' not in html and not samepage:
                         failed.append("AnnotationLinks")
                         detail["AnnotationLinks"] = {"module": nskey[2:], "name": name, "html": html}
     failed = sorted(set(failed))
